@@ -85,4 +85,53 @@ def sleeps : List MEv → List Int
   | .sleep w :: t => w :: sleeps t
   | _ :: t => sleeps t
 
+/-- an outage in which the first `k` reopen attempts fail and the next one succeeds -/
+def outageOuts (k : Nat) (rest : List Bool) : List Bool := List.replicate k false ++ true :: rest
+
+/-! Several transports, each with its own monitor value (product of independent instances). -/
+
+/-- One transport's monitor: its policy value (exported fields, may be rewritten by the application
+at any time) and whether its runner is still running. -/
+structure Inst where
+  pol : Base
+  alive : Bool
+  deriving Repr, DecidableEq
+
+/-- What the application / the environment does to transport `t`. -/
+inductive MAct where
+  | outage (t k : Nat)               -- unclean close of transport t; the next k Opens fail
+  | setPolicy (t : Nat) (b : Base)   -- the application rewrites the fields of monitor t
+  deriving Repr, DecidableEq
+
+def Inst.outage (m : Inst) (k : Nat) : Inst × List MEv :=
+  if !m.alive then (m, [])
+  else
+    let t := handleClose m.pol.policy false (outageOuts k [])
+    ({ m with alive := !endsRunner t }, t)
+
+/-- One action on the product: only instance `t` is read and written. -/
+def multiStep (ms : List Inst) : MAct → List Inst × Option (Nat × List MEv)
+  | .outage t k =>
+    match ms[t]? with
+    | none => (ms, none)
+    | some m => (ms.set t (m.outage k).1, some (t, (m.outage k).2))
+  | .setPolicy t b =>
+    match ms[t]? with
+    | none => (ms, none)
+    | some m => (ms.set t { m with pol := b }, none)
+
+/-- The log of (transport, runner trace) of a run of the product. -/
+def multiRun (ms : List Inst) : List MAct → List (Nat × List MEv)
+  | [] => []
+  | a :: as =>
+    match (multiStep ms a).2 with
+    | none => multiRun (multiStep ms a).1 as
+    | some e => e :: multiRun (multiStep ms a).1 as
+
+/-- The same actions seen by ONE instance alone. -/
+def singleRun (m : Inst) : List MAct → Nat → List (List MEv)
+  | [], _ => []
+  | .outage t k :: as, i => if t = i then (m.outage k).2 :: singleRun (m.outage k).1 as i else singleRun m as i
+  | .setPolicy t b :: as, i => if t = i then singleRun { m with pol := b } as i else singleRun m as i
+
 end FV.Monitor
